@@ -19,7 +19,7 @@ RULE = ("Hypothesis-generated nested 3D plotfiles (1-3 levels, partial refinemen
         "away from the domain faces; K == covering pattern; T == linear interpolation of the two bracketing stored "
         "samples at pixels where the statement leaves no freedom; grid_level in the levels having a box within half "
         "a cell; coordinates; default = domain centre; outside refused; runs bit-identical and poison-free. "
-        "Non-trivial = >= 2 levels with partial refinement and p not on a level-0 cell centre, or origin != 0.")
+        "One frac / gap / face position in three is given as a Python int inside the domain. Non-trivial = >= 2 levels with partial refinement and p not on a level-0 cell centre, or origin != 0.")
 ASSUMPTIONS = ["positions are constructed >= 0.05 cell away from every cell centre unless exactly on one (the tool snaps within numpy.isclose)",
                "|origin| <= 10 x domain length so that the isclose band stays below 0.02 cell", ">= 4 cells per direction"]
 
